@@ -1,82 +1,74 @@
 (* Properties/C01.v — Parsing is total and memory-safe on arbitrary bytes (Parse half).
    Only statements, each closed by [exact] of a lemma proved in Proofs/Parse*.v.
-   (The view-getter half of C01 is in Properties/C01_views.v, VIEWS cluster.) *)
+   (The view-getter half of C01 is in Properties/C01_views.v, VIEWS cluster.)
+
+   The model (Model/Parse.v) follows /repo AFTER the two repairs of layer_frame.go made by this cluster
+   (known_findings.txt, "fixed: property=C01"): `len(arp) < 28 || arp[4] != 6`, and ErrFrameLen when the
+   tagged Ethernet header is longer than the frame.  Before them the three statements below were refuted
+   (19-byte ARP frame: panic; 31-byte ARP frame: sender address read from the spare capacity; 16-byte
+   802.1Q frame: Frame.Payload() panics); the former witnesses are kept as regression examples. *)
 From PV Require Import Base.Prelude Base.Slice Model.Parse Model.ParseKnown Proofs.Parse Proofs.ParseSim Proofs.ParseAcc.
 Open Scope N_scope.
 
-(* ---- Parse never panics / never spins ------------------------------------------------- *)
-
-(* Full statement "forall c s, wf s -> safe (parse c s)" is FALSE for the code as it is
-   (layer_frame.go:240, `len(arp) < 28 && arp[4] != 6`): *)
-Theorem C01_parse_no_panic_refuted :
-  exists c s, wf s /\ bytes_ok (arr s) /\ parse c s = Panic.
-Proof. exact parse_no_panic_refuted. Qed.
-Print Assumptions C01_parse_no_panic_refuted.
-
-(* It holds for every slice (any length, any capacity >= length, any configuration) outside the
-   recorded class k_arp_unsafe: ARP EtherType, unicast source, body shorter than 18 bytes and
-   (body shorter than 5 bytes or body[4] = 6).  The class is a function of the bytes within the
-   length only.  Fuel: the model has no loop, so Fuel is excluded by construction. *)
-Theorem C01_parse_no_panic_partial : forall c s,
-  wf s -> k_arp_unsafe (view s) = false -> safe (parse c s).
-Proof. exact parse_no_panic_partial. Qed.
-Print Assumptions C01_parse_no_panic_partial.
+(* ---- Parse never panics / never spins: every slice, every capacity, every configuration ------------ *)
+(* Fuel: the model has no loop, Fuel is excluded by construction. Blocking on the session lock: C09. *)
+Theorem C01_parse_no_panic : forall c s, wf s -> safe (parse c s).
+Proof. exact parse_no_panic. Qed.
+Print Assumptions C01_parse_no_panic.
 
 Example C01_parse_no_panic_nonvacuous :
-  wf (of_bytes ex_arp28) /\ k_arp_unsafe (view (of_bytes ex_arp28)) = false /\
+  wf (of_bytes ex_arp28) /\
   exists f, parse cfg0 (of_bytes ex_arp28) = Ok f /\ f_id f = PayloadARP /\
             f_host f = Some ([2;17;17;17;17;17], [192;168;0;7]).
 Proof. exact parse_no_panic_nonvacuous. Qed.
 Print Assumptions C01_parse_no_panic_nonvacuous.
 
-(* ---- the result depends only on the bytes within the length ---------------------------- *)
+(* the inputs that made Parse panic before the repair *)
+Example C01_former_panic_witnesses :
+  parse cfg0 (of_bytes w_arp19) = Err EParseFrame /\ parse cfg0 (of_bytes w_arp14) = Err EParseFrame.
+Proof. exact (conj parse_arp19_fixed parse_arp14_fixed). Qed.
+Print Assumptions C01_former_panic_witnesses.
 
-(* FALSE as the code is: a truncated ARP body with hardware length 6 makes Parse read the sender
-   address from the spare capacity (arp[14:18] is a slice expression: checked against cap). *)
-Theorem C01_parse_len_only_refuted :
-  exists c s s', wf s /\ wf s' /\ len s = len s' /\ view s = view s' /\ parse c s <> parse c s'.
-Proof. exact parse_len_only_refuted. Qed.
-Print Assumptions C01_parse_len_only_refuted.
-
-(* Outside the same ARP class the result (offsets, PayloadID, addresses, ports, the key handed to
-   the host table, the echo id handed to the ping table) is a function of the bytes within the
-   length: any two well-formed slices with equal length and equal bytes within it, whatever their
-   capacities and spare contents, parse identically. *)
-Theorem C01_parse_len_only_partial : forall c s s',
-  wf s -> wf s' -> len s = len s' -> view s = view s' -> k_arp_unsafe (view s) = false ->
-  parse c s = parse c s'.
-Proof. exact parse_len_only_partial. Qed.
-Print Assumptions C01_parse_len_only_partial.
+(* ---- the result depends only on the bytes within the length ---------------------------------------- *)
+(* The whole result (offsets, PayloadID, addresses, ports, the key handed to the host table, the echo id handed
+   to the ping table) is a function of the bytes within the length: any two well-formed slices with equal length
+   and equal bytes within it, whatever their capacities and spare contents, parse identically. *)
+Theorem C01_parse_len_only : forall c s s',
+  wf s -> wf s' -> len s = len s' -> view s = view s' -> parse c s = parse c s'.
+Proof. exact parse_len_only. Qed.
+Print Assumptions C01_parse_len_only.
 
 Example C01_parse_len_only_nonvacuous :
   let s := of_bytes ex_arp28 in let s' := of_bytes_cap ex_arp28 [170;170;170] in
-  wf s /\ wf s' /\ len s = len s' /\ view s = view s' /\ k_arp_unsafe (view s) = false /\
+  wf s /\ wf s' /\ len s = len s' /\ view s = view s' /\
   (cap s <> cap s')%nat /\ is_ok (parse cfg0 s) = true.
 Proof. exact parse_len_only_nonvacuous. Qed.
 Print Assumptions C01_parse_len_only_nonvacuous.
 
-(* ---- accessors after a nil error -------------------------------------------------------- *)
+Example C01_former_capacity_witness :
+  parse cfg0 (of_bytes_cap w_arp31 [1]) = Err EParseFrame /\ parse cfg0 (of_bytes w_arp31) = Err EParseFrame.
+Proof. exact parse_arp31_fixed. Qed.
+Print Assumptions C01_former_capacity_witness.
 
-(* FALSE as the code is: 16-byte 802.1Q frame, Parse returns nil and Frame.Payload() panics. *)
-Theorem C01_frame_accessors_safe_refuted :
-  exists c s f, wf s /\ bytes_ok (arr s) /\ parse c s = Ok f /\ frame_payload s f = Panic.
-Proof. exact frame_accessors_safe_refuted. Qed.
-Print Assumptions C01_frame_accessors_safe_refuted.
-
-(* Outside the recorded class k_vlan_short (EtherType 0x8100 with len < 18, 0x88a8 with len < 22) every
-   accessor of the returned Frame (Ether, IP4, IP6, UDP, TCP, Payload) returns without panic either nil
+(* ---- accessors after a nil error --------------------------------------------------------------------- *)
+(* Every accessor of the returned Frame (Ether, IP4, IP6, UDP, TCP, Payload) returns without panic either nil
    or the sub-slice of the input that starts at an offset <= len and runs to the end of the input.
-   (HasIP and the addresses are total by construction: they read Frame fields only.) *)
-Theorem C01_frame_accessors_safe_partial : forall c s f,
-  wf s -> k_vlan_short (view s) = false -> parse c s = Ok f ->
+   (HasIP and the addresses are total by construction: they read Frame fields only; the MAC slices are
+   p[6:12] and p[0:6] of a frame of at least 14 bytes: C16_views_are_subslices.) *)
+Theorem C01_frame_accessors_safe : forall c s f,
+  wf s -> parse c s = Ok f ->
   acc_inside s (frame_ether s f) /\ acc_inside s (frame_ip4 s f) /\ acc_inside s (frame_ip6 s f) /\
   acc_inside s (frame_udp s f) /\ acc_inside s (frame_tcp s f) /\ acc_inside s (frame_payload s f).
-Proof. exact frame_accessors_safe_partial. Qed.
-Print Assumptions C01_frame_accessors_safe_partial.
+Proof. exact frame_accessors_safe. Qed.
+Print Assumptions C01_frame_accessors_safe.
 
 Example C01_frame_accessors_safe_nonvacuous :
   let s := of_bytes ex_arp28 in
-  wf s /\ k_vlan_short (view s) = false /\ exists f, parse cfg0 s = Ok f /\
+  wf s /\ exists f, parse cfg0 s = Ok f /\
   frame_payload s f = Ok (Some (mkSlice (skipn 14 (arr s)) 28)).
 Proof. exact frame_accessors_safe_nonvacuous. Qed.
 Print Assumptions C01_frame_accessors_safe_nonvacuous.
+
+Example C01_former_accessor_witness : parse cfg0 (of_bytes w_vlan16) = Err EFrameLen.
+Proof. exact parse_vlan16_fixed. Qed.
+Print Assumptions C01_former_accessor_witness.
